@@ -2,7 +2,7 @@
 import desper
 
 # bits of the "ev" shape of a class
-EV_ADD, EV_REMOVE, EV_RENAMED, EV_PROBE, EV_FALSY, EV_EQ, EV_UNHASH = 1, 2, 4, 8, 16, 32, 64
+EV_ADD, EV_REMOVE, EV_RENAMED, EV_PROBE, EV_FALSY, EV_EQ, EV_UNHASH, EV_INSTANCE = 1, 2, 4, 8, 16, 32, 64, 128
 
 
 class EqByMode:
@@ -50,7 +50,7 @@ class RecBase(EqByMode):
     def _mapped(self, event, method):
         # every class has all four methods; the decorator decides which one an event is mapped to - running
         # on_add on a class that maps the event to `added` is running the wrong method
-        return getattr(type(self), '__events__', {}).get(event, method) == method
+        return getattr(self, '__events__', {}).get(event, method) == method
 
     def on_add(self, *a):
         self._rec('on_add' if self._mapped('on_add', 'on_add') else 'unmapped_method_on_add', a)
@@ -95,7 +95,22 @@ def add_class(classes, eff, c, root=RecBase, prefix='K', decorate=True, namespac
         cls._eqmode = 2
     elif c.get('ev', 0) & EV_EQ:
         cls._eqmode = 1
-    if decorate:
+    if decorate and c.get('ev', 0) & EV_INSTANCE:
+        # the class declares nothing: every INSTANCE carries its own __events__ mapping (set in __init__), which is
+        # all the EventHandler protocol asks for
+        ev = c.get('ev', 0)
+        mapping = {}
+        if ev & EV_ADD:
+            mapping['on_add'] = 'on_add'
+        if ev & EV_REMOVE:
+            mapping['on_remove'] = 'on_remove'
+        if ev & EV_PROBE:
+            mapping['probe'] = 'probe'
+
+        def __init__(self, _mapping=mapping):
+            self.__events__ = dict(_mapping)
+        cls.__init__ = __init__
+    elif decorate:
         ev = c.get('ev', 0)
         names, maps = [], {}
         if ev & EV_RENAMED:
